@@ -110,6 +110,10 @@ func (n *Namespace) Verify() error {
 		return err
 	}
 
+	if err := n.verifyDefaultSliceExists(); err != nil {
+		return err
+	}
+
 	if err := n.verifyShardRules(); err != nil {
 		return err
 	}
@@ -310,6 +314,15 @@ func (n *Namespace) verifyDefaultSlice() error {
 		if !exist {
 			return fmt.Errorf("invalid default slice: %s", n.DefaultSlice)
 		}
+	}
+	return nil
+}
+
+// verifyDefaultSliceExists a proxy cannot build its router without a default slice
+// (router.NewRouter refuses an empty default slice), so a namespace must name one
+func (n *Namespace) verifyDefaultSliceExists() error {
+	if n.DefaultSlice == "" {
+		return errors.New("must specify default slice")
 	}
 	return nil
 }
